@@ -35,6 +35,24 @@ INTERCONNECTS = [
 ]
 
 
+def wb_timeout_body(ctx, rid):
+    """wishbone.Timeout: counts only an unanswered request, terminates with ack + error data exactly on expiry (shared with C06:
+    a watchdog that fires on an answered request gives the master a second termination / data that is not the slave's)."""
+    fx = fx_of(ctx, WB, "Timeout")
+    fail_closed(ctx, fx, "Timeout")
+    w = fx.find(domain="comb", target="timer.wait")
+    ok = len(w) == 1 and not w[0].guards and B.equivalent(B.from_expr(w[0].value), B.from_expr("master.stb & master.cyc & ~master.ack"))
+    ctx.ob(rid, WB, "Timeout", "wait = stb & cyc & ~ack", ok, "" if ok else f"timer.wait <= {w[0].v if w else '?'}", w[0].line if w else 0)
+    for tgt, want in (("master.ack", "1"), ("self.error", "1"), ("master.dat_r", "2 ** len(master.dat_w) - 1")):
+        ds = fx.find(domain="comb", target=tgt)
+        ok = len(ds) == 1 and ds[0].v == want and B.equivalent(ds[0].eff(), B.A("timer.done"))
+        ctx.ob(rid, WB, "Timeout", f"{tgt} = {want} on expiry", ok,
+               "" if ok else f"{tgt} <= {ds[0].v if ds else '(none)'} under {ds[0].gtext() if ds else '-'}", ds[0].line if ds else 0)
+    ti = [i for i in fx.insts if i.cls == "WaitTimer" and i.call is not None]
+    ok = len(ti) == 1 and norm(ti[0].call.args[0]) == "cycles"
+    ctx.ob(rid, WB, "Timeout", "WaitTimer(cycles)", ok, "" if ok else f"{ti}")
+
+
 def run(ctx):
     ctx.rule("T1", "every interconnect whose __init__ accepts timeout_cycles instantiates a *Timeout(<bus>, timeout_cycles) on "
                    "the `timeout_cycles is not None` path", min_sites=6)
@@ -73,20 +91,7 @@ def run(ctx):
             ctx.ob("T1", rel, cls, "Timeout watches the decoder's master bus", ok3, "" if ok3 else f"{touts[0]} vs {decs[0] if decs else None}", touts[0].node)
 
     # ================================================================ T3 wishbone
-    fx = fx_of(ctx, WB, "Timeout")
-    fail_closed(ctx, fx, "Timeout")
-    prio(ctx, "S7", fx, "Timeout") if False else None
-    w = fx.find(domain="comb", target="timer.wait")
-    ok = len(w) == 1 and not w[0].guards and B.equivalent(B.from_expr(w[0].value), B.from_expr("master.stb & master.cyc & ~master.ack"))
-    ctx.ob("T3", WB, "Timeout", "wait = stb & cyc & ~ack", ok, "" if ok else f"timer.wait <= {w[0].v if w else '?'}", w[0].line if w else 0)
-    for tgt, want in (("master.ack", "1"), ("self.error", "1"), ("master.dat_r", "2 ** len(master.dat_w) - 1")):
-        ds = fx.find(domain="comb", target=tgt)
-        ok = len(ds) == 1 and ds[0].v == want and B.equivalent(ds[0].eff(), B.A("timer.done"))
-        ctx.ob("T3", WB, "Timeout", f"{tgt} = {want} on expiry", ok,
-               "" if ok else f"{tgt} <= {ds[0].v if ds else '(none)'} under {ds[0].gtext() if ds else '-'}", ds[0].line if ds else 0)
-    ti = [i for i in fx.insts if i.cls == "WaitTimer" and i.call is not None]
-    ok = len(ti) == 1 and norm(ti[0].call.args[0]) == "cycles"
-    ctx.ob("T3", WB, "Timeout", "WaitTimer(cycles)", ok, "" if ok else f"{ti}")
+    wb_timeout_body(ctx, "T3")
 
     # ================================================================ T3 AXI-Lite / AXI
     acm = ctx.mod(AC)
